@@ -68,7 +68,7 @@ def cargo_build():
 
 
 # ------------------------------------------------------------------ proof audit
-DECL_RE = re.compile(r"^(?:@\[[^\]]*\]\s*)?(?:private\s+|protected\s+)?(theorem|lemma|example)\b\s*([\w\.']*)", re.M)
+DECL_RE = re.compile(r"^(?:@\[[^\]]*\]\s*)?(?:private\s+|protected\s+)?(theorem|lemma|example)\b[ \t]*([^\s:({\[]*)", re.M)
 FORBIDDEN_RE = re.compile(r"\b(sorry|admit|native_decide|bv_decide|implemented_by|unsafe)\b|^\s*axiom\s|maxHeartbeats\s+0", re.M)
 
 
